@@ -89,7 +89,7 @@ func TestC06Sim(t *testing.T) {
 	runSimCheck(t, simCheck{
 		Property: "C06", Name: "C06Sim",
 		Rule:   "whole-system scenarios in virtual time (generated routing tree with group_by variants, alert timelines, silences, inhibit rules, faults); every notification is checked against the reference routing/grouping model. Non-trivial: >=1 notification listing >=2 alerts.",
-		Params: sim.GenParams{Silences: true, Inhibit: true, Faults: true, Gets: true},
+		Params: sim.GenParams{Silences: true, Inhibit: true, Faults: true, Gets: true, GroupLimit: true},
 		NonTrivial: func(st sim.Stats, _ *sim.Scenario, _ *sim.Trace) bool {
 			return st.MultiAlertGroups > 0
 		},
@@ -129,7 +129,7 @@ func TestC01Sim(t *testing.T) {
 	runSimCheck(t, simCheck{
 		Property: "C01", Name: "C01Sim",
 		Rule:   "whole-system scenarios in virtual time: routing config, alert timelines (fire, heartbeat, explicit/timeout end, re-fire), silences and inhibiting alerts coming and going, time intervals, integration fault plans. Knowledge obligation evaluated at every step instant. Non-trivial: >=1 knowledge obligation evaluated and the case has a suppression that ended, a delivery failure, or a re-created group.",
-		Params: sim.GenParams{Silences: true, Inhibit: true, Intervals: true, Faults: true, Gets: true},
+		Params: sim.GenParams{Silences: true, Inhibit: true, Intervals: true, Faults: true, Gets: true, GroupLimit: true},
 		NonTrivial: func(st sim.Stats, _ *sim.Scenario, _ *sim.Trace) bool {
 			return st.KnowledgeObligations > 0 && (st.SuppressionEnded || st.Failures > 0 || st.GroupsRecreated > 0)
 		},
@@ -182,7 +182,7 @@ func TestC01SimRestart(t *testing.T) {
 	runSimCheck(t, simCheck{
 		Property: "C01", Name: "C01SimRestart",
 		Rule:   "as C01Sim, plus config reloads and process restarts (posts before the dispatcher start delay has passed are picked up by the new dispatcher's initial load). Non-trivial: >=1 knowledge obligation evaluated after a reload or restart.",
-		Params: sim.GenParams{Silences: true, Inhibit: true, Faults: true, Reload: true, Restart: true, Gets: true},
+		Params: sim.GenParams{Silences: true, Inhibit: true, Faults: true, Reload: true, Restart: true, Gets: true, GroupLimit: true},
 		NonTrivial: func(st sim.Stats, sc *sim.Scenario, tr *sim.Trace) bool {
 			for _, s := range sc.Steps {
 				if s.Op == "reload" || s.Op == "restart" {
